@@ -1,6 +1,10 @@
 package props
 
 import (
+	"fmt"
+	"os"
+	"regexp"
+	"strings"
 	"time"
 
 	"verifmc/explore"
@@ -20,4 +24,86 @@ func runAll(c *explore.Check, scs []*explore.Scenario, budget time.Duration) {
 		}
 		c.Add(s.Explore())
 	}
+}
+
+var raceExecRe = regexp.MustCompile(`RACEPASS executions=(\d+)`)
+
+// attachRacePass folds the result of the separate free-running -race pass (run by bin/check
+// before this process, log in $VERIF_RACELOG) into the check: every distinct data-race report
+// becomes a violation whose signature names the first utls frames of both accesses.
+func attachRacePass(c *explore.Check) {
+	p := os.Getenv("VERIF_RACELOG")
+	if p == "" {
+		c.Extra["race_pass"] = "not run (invoke through bin/check)"
+		return
+	}
+	b, err := os.ReadFile(p)
+	if err != nil {
+		c.Gate(false, "race pass log unreadable: %v", err)
+		return
+	}
+	log := string(b)
+	execs := 0
+	for _, m := range raceExecRe.FindAllStringSubmatch(log, -1) {
+		fmt.Sscan(m[1], &execs)
+	}
+	c.Extra["race_pass_iterations"] = execs
+	c.Extra["race_pass_note"] = "sampled: free-running goroutines under the race detector with seeded yield injection; complements the exhaustive schedule enumeration, never replaces it"
+	if !strings.Contains(log, "RACEPASS-EXIT 0") || execs == 0 {
+		c.Gate(false, "race pass did not complete: %s", lastLines(log, 5))
+	}
+	for _, l := range strings.Split(log, "\n") {
+		if strings.HasPrefix(l, "RACEPASS-INFRA") {
+			c.Gate(false, "%s", l)
+		}
+	}
+	blocks := strings.Split(log, "WARNING: DATA RACE")
+	seen := map[string]bool{}
+	for _, blk := range blocks[1:] {
+		if i := strings.Index(blk, "=================="); i >= 0 {
+			blk = blk[:i]
+		}
+		var frames []string
+		for _, l := range strings.Split(blk, "\n") {
+			l = strings.TrimSpace(l)
+			if strings.HasPrefix(l, "github.com/refraction-networking/utls.") && !strings.Contains(l, "verifshim") {
+				f := strings.TrimPrefix(l, "github.com/refraction-networking/utls.")
+				if j := strings.LastIndex(f, "("); j > 0 {
+					f = f[:j]
+				}
+				if len(frames) == 0 || frames[len(frames)-1] != f {
+					frames = append(frames, f)
+				}
+			}
+		}
+		if len(frames) > 4 {
+			frames = frames[:4]
+		}
+		if len(frames) == 0 {
+			c.Gate(false, "race report without any utls frame (harness race): %s", trimTo(blk, 600))
+			continue
+		}
+		sig := c.Property + "|race|" + strings.Join(frames, "<-")
+		if seen[sig] {
+			continue
+		}
+		seen[sig] = true
+		c.Total.Violations = append(c.Total.Violations, explore.Found{Violation: explore.Violation{Sig: sig, Msg: "data race reported by the free-running -race pass:" + trimTo(blk, 1500)}, Scenario: "race-pass", Desc: "see " + p})
+		c.Total.ViolCount++
+	}
+	c.Extra["race_reports_distinct"] = len(seen)
+}
+
+func lastLines(s string, n int) string {
+	ls := strings.Split(strings.TrimSpace(s), "\n")
+	if len(ls) > n {
+		ls = ls[len(ls)-n:]
+	}
+	return strings.Join(ls, " | ")
+}
+func trimTo(s string, n int) string {
+	if len(s) > n {
+		return s[:n]
+	}
+	return s
 }
